@@ -59,7 +59,8 @@ Definition env_set_loop (e : env) (index : nat) (len : nat) : env :=
   match e with f :: e' => aset str_loop o f :: e' | [] => [[(str_loop, o)]] end.
 
 (* ---------- custom functions: the five-function library of harness/tree.go *)
-Inductive fnid := F_id | F_const | F_const2 | F_echo | F_args | F_nargs | F_not.
+Inductive fnid := F_id | F_const | F_const2 | F_echo | F_args | F_nargs | F_not | F_revip.
+(* F_revip: an array function that reverses the slice it received in place and returns it *)
 
 Record ctx := mkCtx {
   custom : list (bytes * bytes * fnid)    (* receiver type name, function name, function *)
@@ -118,6 +119,7 @@ Definition call_custom (f : fnid) (recv : value) (args : list value) : option va
                 | Some a, Some b => Some (VArr [VStr (a ++ bs "<-" ++ b)]) | _, _ => None end
     | F_const => Some (VArr [VInt 1; VStr (bs "x")])
     | F_const2 => Some (VArr [VInt 2])
+    | F_revip => Some (VArr (rev l))
     | _ => None
     end
   | VInt z =>
